@@ -141,6 +141,10 @@ class TreeGen:
                     red = self.redefiner(level, depth, bsize, in_occurs)
                     if red is not None:
                         red.redefines = base.name
+                        if o["fillers"] and rng.random() < 0.25:
+                            # the common idiom `05 FILLER REDEFINES ORDER-DATE.` (or no name at all)
+                            red.name = rng.choice(["FILLER", None])
+                            self.features.add("redefines-by-filler")
                         out.append(red)
                         self.features.add("redefines-group" if red.is_group else "redefines-elem")
                         if len(out) > 2:
